@@ -71,7 +71,7 @@ def e1_configs(tier):
     for mode in MODES:
         for bias in BIAS:
             for spl in SPL:
-                for ragged in ((0,) if q else (0, 1)):
+                for ragged in ((0,) if q or spl != 2 else (0, 1)):
                     add('R256', mode, 100, 60, 256, bias, spl, 0 if q else 1, ragged=ragged)
     # C: R=1000.  quick: targets that are multiples of 8 (coarser lattice) and a reduced alphabet; thorough: 100/60 and the normal one
     for mode in MODES:
@@ -82,7 +82,7 @@ def e1_configs(tier):
                         continue
                     add('R1000', mode, 96, 64, 1000, bias, spl, -1)
                 else:
-                    if not (mode in ('both', 'cbr') and spl != 2 and bias != 0.5):      # ~2*10^6 states, 3*10^8 transitions each
+                    if not (mode in ('both', 'cbr') and spl != 2):      # ~2*10^6 states, 3*10^8 transitions each
                         add('R1000', mode, 100, 60, 1000, bias, spl, 0)
                     add('R1000m8', mode, 96, 64, 1000, bias, spl, 0)
     # D: reservoirs smaller than / around one byte (accepted by the control interface)
@@ -99,15 +99,15 @@ def e1_configs(tier):
         for R in (64, 256, 1000):
             for bias in BIAS:
                 for damp in (1.5, 30):
-                    for spl in ((2,) if q else SPL):
-                        add('avg-deep', mode, 100, 60, R, bias, spl, -2, avg=True, damp=damp, maxdepth=12, maxtrans=3000000 if q else 15000000)
+                    for spl in ((2,) if q or not (damp == 30 and bias == 0.1) else SPL):
+                        add('avg-deep', mode, 100, 60, R, bias, spl, -2, avg=True, damp=damp, maxdepth=12, maxtrans=3000000 if q else 10000000)
                     if q and not (bias in (0.1, 1) and damp == 30):
                         continue
-                    add('avg-wide', mode, 100, 60, R, bias, 2, -1, avg=True, damp=damp, maxdepth=(3 if q else 5), maxtrans=2000000 if q else 15000000)
+                    add('avg-wide', mode, 100, 60, R, bias, 2, -1, avg=True, damp=damp, maxdepth=(3 if q else 5), maxtrans=2000000 if q else 8000000)
     if not q:
         for mode in MODES:
             for damp in (1.5, 7.5, 30, 120):
-                add('avg-deep', mode, 37, 23, 64, 0.5, 2, -2, avg=True, damp=damp, ragged=1, maxdepth=14, maxtrans=30000000)
+                add('avg-deep', mode, 37, 23, 64, 0.5, 2, -2, avg=True, damp=damp, ragged=1, maxdepth=14, maxtrans=20000000)
     return out
 
 
@@ -154,7 +154,7 @@ def e2_cases(tier):
                                     a = {'max': (mx * 3) // 4, 'min': (mn * 3) // 2, 'both': (mx + mn) // 2, 'cbr': mx}[mode]
                                 else:
                                     a = 0
-                                nn = n if q else n * 3
+                                nn = n if q else n * 2
                                 out.append((dict(rate=rate, ch=ch, set=sname, mode=mode, max=mx, min=mn, avg=a, res=res, bias=bias, sig=sig),
                                             f"e2e {rate} {ch} {tmpl} {mx} {mn} {a} {res} {bias} {sig} {nn}"))
     return out
@@ -173,11 +173,13 @@ def run(tier):
     exe1 = vlib.harness('plain', 'c14_bitrate')
     exe2 = vlib.harness('plain', 'c14_e2e')
     t0 = time.time()
-    deadline = int(t0 + (150 if tier == 'quick' else 21 * 60))
+    # internal wall-clock deadline (coverage only, never a verdict); C14_DEADLINE_S overrides it, e.g. to measure a complete run on a loaded machine
+    deadline = int(t0 + float(os.environ.get('C14_DEADLINE_S', 150 if tier == 'quick' else 21 * 60)))
     exhaustive = True
 
     # ------------------------------------------------------------------ E2 first (short), then E1
-    e2 = e2_cases(tier)
+    parts = os.environ.get('C14_PARTS', 'e1,e2').split(',')    # debugging aid only; a partial run is reported as non-exhaustive
+    e2 = e2_cases(tier) if 'e2' in parts else []
     r2 = vlib.run_cases(exe2, [c for _, c in e2], tag='c14e2')
     e2stat = dict(cases=0, packets=0, runs=0, trunc=0, pad=0, limited=0, hit0=0, hitfull=0, nonmono=0, short=0, long=0, worstp=-1e18, worstm=-1e18)
     e2samples = []
@@ -212,7 +214,7 @@ def run(tier):
     t_e2 = time.time() - t0
 
     # ------------------------------------------------------------------ E1
-    cfgs = e1_configs(tier)
+    cfgs = e1_configs(tier) if 'e1' in parts else []
     cfgs.sort(key=e1_cost)    # light configurations first: a deadline can only cut the heavy tail
     lines = [e1_line(c) for c in cfgs]
     r1 = vlib.run_cases(exe1, lines, ['--deadline', str(deadline), '--timeout', '3000'], tag='c14e1', timeout=7200)
@@ -224,6 +226,7 @@ def run(tier):
     table = []
     samples = []
     seen_s = set()
+    e1viol = []
     for c, line, r in zip(cfgs, lines, r1):
         chk.cov['evaluations'] += 1
         r = r or 'NOOUTPUT'
@@ -241,7 +244,7 @@ def run(tier):
             f['max_depth'] = max(f['max_depth'], int(d['depth']))
             if c['A']:
                 n_avg += 1
-            else:
+            elif r.startswith('ok'):      # a configuration stopped at a violation is not a fix-point candidate
                 n_noavg += 1
                 fix_noavg += int(d['fix'])
             fix_total += int(d['fix'])
@@ -255,8 +258,8 @@ def run(tier):
             table.append(f"{name} states={d['states']} trans={d['trans']} fix={d['fix']}({d['why']}) depth={d['depth']} alphabet={d['alpha']} maxE+={d['maxEp']} maxE-={d['maxEm']} res=[{d['minres']},{d['maxres']}]")
             if r.startswith('VIOL'):
                 key = f"e1:{d['kind']}:{c['mode']}{'+avg' if c['A'] else ''}"
-                chk.violation(key, f"{name}: {d.get('detail', '')} after trace {d['trace'][:400]}", {'part': 'e1', 'config': c, 'case': e1_trace_line(c, d['trace'])})
-            elif 'sample' in d and (c['mode'], bool(c['A'])) not in seen_s and len(samples) < 6 and int(d['depth']) >= 3:
+                e1viol.append((key, c['R'] < 64, d['trace'].count(';'), f"{name}: {d.get('detail', '')} after trace {d['trace'][:400]}", {'part': 'e1', 'config': c, 'case': e1_trace_line(c, d['trace'])}))
+            elif 'sample' in d and (c['mode'], bool(c['A'])) not in seen_s and len(samples) < 6 and int(d['depth']) >= 3 and c['R'] >= 64:
                 seen_s.add((c['mode'], bool(c['A'])))
                 samples.append({'config': name, 'trace->state': d['sample']})
         elif r.startswith('cfgerr'):
@@ -264,10 +267,14 @@ def run(tier):
         else:
             chk.violation(f"e1:executor_{r.split()[0].lower()}:{c['mode']}{'+avg' if c['A'] else ''}", f"the real vorbis_bitrate_addblock/flushpacket crashed or hung under {name}: {r[:300]}", {'part': 'e1', 'config': c, 'case': line})
 
+    # per key the replay kept is the one on a realistic reservoir with the shortest trace
+    for key, _, _, desc, rp in sorted(e1viol, key=lambda v: v[:3]):
+        chk.violation(key, desc, rp)
+
     chk.cov.update({
         'states': tot['states'], 'transitions': tot['trans'], 'traces_validated_against_impl': tot['validated'],
         'distinct_nontrivial': tot['nontriv'],
-        'exhaustive': exhaustive,
+        'exhaustive': exhaustive and parts == ['e1', 'e2'], 'parts': parts,
         'e1_configurations': len(cfgs), 'e1_configurations_without_avg': n_noavg, 'e1_fixpoints_without_avg': fix_noavg, 'e1_configurations_with_avg_depth_bounded': n_avg,
         'e1_fixpoints_total': fix_total, 'e1_cut': cut,
         'e1_truncating_transitions': tot['trunc'], 'e1_padding_transitions': tot['pad'], 'e1_transitions_to_reservoir_0': tot['hit0'], 'e1_transitions_to_reservoir_full': tot['hitfull'],
@@ -294,18 +301,20 @@ def run(tier):
         'over-padding / harsher-than-needed truncation is not judged unless it breaks a limit (the property bounds bits, not quality)',
     ]
     chk.guard(not broken, 'no executor configuration errors: ' + '; '.join(broken[:3]))
-    chk.guard(tot['diverged'] == 0, f"replaying recorded histories on fresh objects reproduces the copied states ({tot['diverged']} divergences)")
-    chk.guard(tot['validated'] >= 1000, 'at least 1000 state histories replayed on fresh objects')
-    chk.guard(tot['trunc'] > 0, 'E1: truncation happened in some transition')
-    chk.guard(tot['pad'] > 0, 'E1: padding happened in some transition')
-    chk.guard(tot['hit0'] > 0 and tot['hitfull'] > 0, 'E1: reservoir hit both 0 and full')
-    chk.guard(minch == 0 and maxch == 14, 'E1: both extreme blobs (0 and 14) were chosen')
-    chk.guard(cut['deadline'] > 0 or cut['cap_noavg'] > 0 or fix_noavg == n_noavg, f'E1: every configuration without average tracking that was not cut reached a fix-point ({fix_noavg}/{n_noavg})')
-    chk.guard(fix_noavg >= (100 if tier == 'quick' else 250), f'E1: at least N configurations reached a fix-point ({fix_noavg})')
-    chk.guard(e2stat['trunc'] > 0 and e2stat['pad'] > 0, 'E2: truncation and padding both happened in real encodes')
-    chk.guard(e2stat['hit0'] > 0 and e2stat['hitfull'] > 0, 'E2: reservoir hit both 0 and full in real encodes')
-    chk.guard(e2stat['short'] > 0 and e2stat['long'] > 0, 'E2: short and long blocks both occurred')
-    chk.guard(e2stat['cases'] >= (1000 if tier == 'quick' else 2000), 'E2: encodes completed')
+    if 'e1' in parts:
+        chk.guard(tot['diverged'] == 0, f"replaying recorded histories on fresh objects reproduces the copied states ({tot['diverged']} divergences)")
+        chk.guard(tot['validated'] >= 1000, 'at least 1000 state histories replayed on fresh objects')
+        chk.guard(tot['trunc'] > 0, 'E1: truncation happened in some transition')
+        chk.guard(tot['pad'] > 0, 'E1: padding happened in some transition')
+        chk.guard(tot['hit0'] > 0 and tot['hitfull'] > 0, 'E1: reservoir hit both 0 and full')
+        chk.guard(minch == 0 and maxch == 14, 'E1: both extreme blobs (0 and 14) were chosen')
+        chk.guard(cut['deadline'] > 0 or cut['cap_noavg'] > 0 or fix_noavg == n_noavg, f'E1: every configuration without average tracking that was not cut reached a fix-point ({fix_noavg}/{n_noavg})')
+        chk.guard(fix_noavg >= (100 if tier == 'quick' else 250), f'E1: at least N configurations reached a fix-point ({fix_noavg})')
+    if 'e2' in parts:
+        chk.guard(e2stat['trunc'] > 0 and e2stat['pad'] > 0, 'E2: truncation and padding both happened in real encodes')
+        chk.guard(e2stat['hit0'] > 0 and e2stat['hitfull'] > 0, 'E2: reservoir hit both 0 and full in real encodes')
+        chk.guard(e2stat['short'] > 0 and e2stat['long'] > 0, 'E2: short and long blocks both occurred')
+        chk.guard(e2stat['cases'] >= (1000 if tier == 'quick' else 2000), 'E2: encodes completed')
     return chk.finish()
 
 
